@@ -265,11 +265,15 @@ def patternsAt (st : St) (sp : Spec) (op : Op) : List Taint :=
       | _ => [])
   ++ mk 12 (patDirKeyedByPath st op) (recreatedDirs st op)
   ++ mk 13 (patOrphanAtCrash st op) (orphansAtCrash st.fs ++ tornShift st.fs)
-  ++ mk 8 (patStaleHandle sp op st) (partners ++ match opSlot op with
+  ++ (if patStaleHandle sp op st then mk 8 true (partners ++ match opSlot op with
       | some sl => match sGetSlot sp.l sl with
-        | some sh => sp.l.ents.filterMap fun kv => if kv.2 == .file sh.fid then some kv.1 else none
+        | some sh =>
+          -- the names of the file the handle was opened on: live ones and durable ones (the file may
+          -- have been unlinked since, its durable entry is what a later crash shows)
+          (sp.l.ents.filterMap fun kv => if kv.2 == .file sh.fid then some kv.1 else none)
+          ++ ((rebuild sp.dents 8 [([], 0)]).filterMap fun kv => if kv.2 == .file sh.fid then some kv.1 else none)
         | none => []
-      | none => [])
+      | none => []) else [])
 
 /-- a taint on `t` is relevant for a divergence observed at `p` if `t = p`, if `t` is a proper
     non-root ancestor of `p` (the entry moved with its directory), or if `t` is a direct child of
